@@ -199,7 +199,14 @@ Fixpoint tv_equal (a b : tv) : bool :=
   | _, _ => false
   end.
 
-(** structural equality (proto.Equal on the stored notification) *)
+(** proto.Equal on float fields: Go's ==, and two NaNs are equal *)
+Definition f_nan (ebits mbits : Z) (x : Z) : bool :=
+  ((x / 2 ^ mbits) mod 2 ^ ebits =? 2 ^ ebits - 1) && negb (x mod 2 ^ mbits =? 0).
+
+Definition f_peq (ebits mbits : Z) (a b : Z) : bool :=
+  f_eq ebits mbits a b || (f_nan ebits mbits a && f_nan ebits mbits b).
+
+(** proto.Equal on the stored notification's value *)
 Fixpoint tv_eqb (a b : tv) : bool :=
   match a, b with
   | TVString x, TVString y => String.eqb x y
@@ -207,8 +214,8 @@ Fixpoint tv_eqb (a b : tv) : bool :=
   | TVUint x, TVUint y => x =? y
   | TVBool x, TVBool y => Bool.eqb x y
   | TVBytes x, TVBytes y => String.eqb x y
-  | TVDouble x, TVDouble y => x =? y
-  | TVFloat x, TVFloat y => x =? y
+  | TVDouble x, TVDouble y => f_peq 11 52 x y
+  | TVFloat x, TVFloat y => f_peq 8 23 x y
   | TVDecimal d p, TVDecimal d' p' => (d =? d') && (p =? p')
   | TVLeaflist l, TVLeaflist l' =>
       (fix go (l l' : list tv) : bool :=
@@ -256,7 +263,9 @@ Record notification := {
 (** what a target sends on its Subscribe stream *)
 Inductive item :=
 | ISync
-| IUpd (n : notification).
+| IUpd (n : notification)
+| IReset.     (* the stream breaks (Recv error, EOF, receive timeout): the target
+                 manager resets the target in the cache and opens a new session *)
 
 (** * Collector glue *)
 
@@ -514,7 +523,7 @@ Definition cache_update_one (w : wstate) (r : leafrec) : wstate :=
   match w_fault w with Some _ => w | None =>
   match join_prefix_and_path (lr_prefix r) (lr_path r) with
   | None => w_fail w (FPanic 1)                       (* p[1:] of an empty slice *)
-  | Some [] => w_fail w (FPanic 2)                    (* path[0] of an empty slice *)
+  | Some [] => w                                      (* "invalid path": error, dropped *)
   | Some ((h :: _) as idx) =>
       if String.eqb h meta_root then w_fail w (FUnmodelled 1)   (* metadata path *)
       else
@@ -583,9 +592,10 @@ Definition cache_delete_one (ts : Z) (pre : gpath) (w : wstate) (d : gpath) : ws
   match w_fault w with Some _ => w | None =>
   match join_prefix_and_path pre d with
   | None => w_fail w (FPanic 1)
-  | Some [] => w_fail w (FPanic 2)
-  | Some ((h :: _) as idx) =>
-      if String.eqb h meta_root then w_fail w (FUnmodelled 2)
+  | Some idx =>
+      (* an empty index path selects every leaf (older than the delete) *)
+      if match idx with h :: _ => String.eqb h meta_root | [] => false end
+      then w_fail w (FUnmodelled 2)
       else
         let cond (g : nat) := match hget (w_heap w) g with
                               | Some r => lr_ts r <? ts
@@ -609,11 +619,34 @@ Definition target_gnmi_update (w : wstate) (n : notification) (pre : gpath) : ws
                       (n_updates n) w in
   fold_left (cache_delete_one (n_ts n) pre) (n_deletes n) w1.
 
+(** the delete cache.Reset announces for one root of the target's tree *)
+Definition root_delete (name root : string) : delrec :=
+  {| d_ts := 0; d_target := name; d_origin := root;
+     d_path := {| g_origin := ""; g_target := ""; g_elem := [{| e_name := "*"; e_keys := [] |}]; g_element := [] |} |}.
+
+(** Cache.Reset -> Target.Reset: every root other than "meta" is cut off the
+    tree (no per-leaf delete notifications) and announced with one delete of
+    <root>/* each; leaf objects still queued keep their last contents *)
+Definition cache_reset (st : pstate) (name : string) : pstate :=
+  match assoc name (ps_cache st) with
+  | None => st
+  | Some t =>
+      let roots := match children_at t [] with
+                   | Some ks => filter (fun k => negb (String.eqb k meta_root)) ks
+                   | None => []
+                   end in
+      let t' := fold_left (fun t r => fst (delete t [r])) roots t in
+      let sub' := fold_left (fun s r => feed_del s (root_delete name r)) roots (ps_sub st) in
+      {| ps_cache := aset name t' (ps_cache st); ps_heap := ps_heap st; ps_gen := ps_gen st;
+         ps_sub := sub'; ps_fault := ps_fault st |}
+  end.
+
 (** manager.handleGNMIUpdate -> Update closure -> Cache.GnmiUpdate *)
 Definition ingest (st : pstate) (name : string) (it : item) : pstate :=
   match ps_fault st with Some _ => st | None =>
   match it with
   | ISync => st                                   (* cache.Sync: meta/sync only *)
+  | IReset => cache_reset st name                 (* handleUpdates: Recv error -> m.reset *)
   | IUpd n =>
       let n' := stamp name n in
       match n_prefix n', assoc name (ps_cache st) with
@@ -1016,6 +1049,7 @@ Definition tdel (f : tstate) (d : path) (ts : Z) : tstate :=
 Definition replay_step (f : tstate) (it : item) : tstate :=
   match it with
   | ISync => f
+  | IReset => []              (* a new session starts from nothing *)
   | IUpd n =>
       let f1 := fold_left (fun f d => tdel f (tkey (n_prefix n) d) (n_ts n)) (n_deletes n) f in
       fold_left (fun f u => tupd f (tkey (n_prefix n) (fst u)) (n_ts n) (snd u)) (n_updates n) f1
@@ -1039,12 +1073,12 @@ Definition glob_free (p : path) : bool := forallb (fun e => negb (is_glob e)) p.
 
 (** the state keys the updates of one stream message write *)
 Definition upd_keys (it : item) : list path :=
-  match it with ISync => [] | IUpd n => map (fun u => tkey (n_prefix n) (fst u)) (n_updates n) end.
+  match it with ISync | IReset => [] | IUpd n => map (fun u => tkey (n_prefix n) (fst u)) (n_updates n) end.
 
 Definition item_prefix_origin (it : item) : string :=
   match it with
   | IUpd n => match n_prefix n with Some g => g_origin g | None => "" end
-  | ISync => ""
+  | ISync | IReset => ""
   end.
 
 (** notification timestamps of a stream strictly increase *)
@@ -1052,6 +1086,7 @@ Fixpoint ts_increasing (last : option Z) (s : list item) : bool :=
   match s with
   | [] => true
   | ISync :: s' => ts_increasing last s'
+  | IReset :: s' => ts_increasing None s'
   | IUpd n :: s' =>
       match last with Some l => l <? n_ts n | None => true end && ts_increasing (Some (n_ts n)) s'
   end.
